@@ -168,7 +168,7 @@ where
                 unsafe { components_b.get_unchecked(0) };
             // SAFETY: `component_a` and `length_a` are guaranteed to contain the raw parts for a
             // valid `Vec<C>`.
-            let mut component_vec_a = ManuallyDrop::new(unsafe {
+            let component_vec_a = ManuallyDrop::new(unsafe {
                 Vec::from_raw_parts(
                     component_column_a.0.cast::<C>(),
                     length_a,
@@ -185,11 +185,26 @@ where
                 )
             });
 
-            (*component_vec_a).clone_from(&(*component_vec_b));
-            *component_column_a = (
-                component_vec_a.as_mut_ptr().cast::<u8>(),
-                component_vec_a.capacity(),
-            );
+            // Write the raw parts back when leaving this scope, including by unwinding: cloning
+            // may both reallocate the column and panic (in a component's `Clone` or `Drop`), and
+            // the column must never keep pointing at an allocation that has been released.
+            struct WriteBack<'a, C> {
+                vec: ManuallyDrop<Vec<C>>,
+                column: &'a mut (*mut u8, usize),
+            }
+
+            impl<C> Drop for WriteBack<'_, C> {
+                fn drop(&mut self) {
+                    *self.column = (self.vec.as_mut_ptr().cast::<u8>(), self.vec.capacity());
+                }
+            }
+
+            let mut write_back = WriteBack {
+                vec: component_vec_a,
+                column: component_column_a,
+            };
+            (*write_back.vec).clone_from(&(*component_vec_b));
+            drop(write_back);
             components_a =
                 // SAFETY: `components_a` is guaranteed to have the same number of values as there
                 // set bits in `identifier_iter`. Since a bit must have been set to enter this
